@@ -13,7 +13,8 @@ RULE = ("case = (counter type, configuration, table pattern): log8 'all 256x256 
         "configuration; log16 'all 65536 counters vs empty', 'sampled pairs' (>= 10^6 per configuration), in the thorough tier slabs of "
         "the full 2^32 pair space of the default configuration; linear random tables with values within 2 of 2^32-1; non-trivial = the "
         "pattern contains cells of at least two of the three branches (reserved-exact / nearest / saturated); distinct = by (configuration, "
-        "pattern, seed)")
+        "pattern, seed); also: one explicit (max_count, num_reserved) pair used by both log classes in either order within one process; "
+        "3-4 threads merging their own pairs of linear tables (8 x 131072 and 3 x 1001 cells) at the same time")
 ASSUMPTIONS = ["'nearest' is judged on decoded values computed in float64 from the sketch's public base; ties and 1-ulp disagreements accept either neighbour",
                "configurations inside the region of known finding F4 are classified by the mechanism predicate, not by this check"]
 LEVEL_TEXT = ("log8: exhaustive over all counter pairs for every configuration of the grid; log16: exhaustive over single counters, "
